@@ -299,6 +299,45 @@ func init() {
 				return "err " + curWorld.state()
 			}
 			return "ok " + curWorld.state()
+		case "w.cyclebusy":
+			// a control cycle that falls into an RPM measurement of the same controller which is still waiting for its
+			// (slow) RPM read: the cycle has to do its work regardless
+			w := curWorld
+			if w.cmd != nil {
+				return "bad-op"
+			}
+			verifhook.SetClock(int64(a.int("now", 0)))
+			w.curve.next = a.str("curve", "0")
+			gate, entered := make(chan struct{}), make(chan struct{})
+			w.dev.RpmGate, w.dev.RpmEntered = gate, entered
+			pollDone := make(chan struct{})
+			go func() {
+				defer close(pollDone)
+				defer func() { _ = recover() }()
+				w.ctl.VerifMeasureRpm()
+			}()
+			select {
+			case <-entered:
+			case <-pollDone: // the measurement never read the RPM register (no RPM input)
+			case <-time.After(5 * time.Second):
+			}
+			var res string
+			func() {
+				defer func() {
+					if r := recover(); r != nil {
+						res = "panic:" + panicClass(r)
+					}
+				}()
+				res = errTok(w.ctl.UpdateFanSpeed())
+			}()
+			out := "res=" + res + " log=" + w.takeLog() + " " + w.state()
+			w.dev.RpmGate = nil
+			close(gate)
+			select {
+			case <-pollDone:
+			case <-time.After(5 * time.Second):
+			}
+			return out
 		case "w.setmap":
 			// a new PWM map is installed on the SAME controller the way computePwmMap does: assign, then derive the
 			// supported inputs with the real updateDistinctPwmValues
